@@ -41,7 +41,7 @@ def natural_bunch_length(V=1e6, H=50.0, f0=None, E0=1.3e9):
 
 
 IMP_FILES = ["none", "short", "long", "empty", "garbage", "odd", "one", "nan", "header"]
-START_FILES = ["none", "txt-ok", "txt-outside", "txt-empty", "txt-garbage", "h5-same", "h5-othersize", "h5-missing"]
+START_FILES = ["txt-ok", "txt-outside", "txt-empty", "txt-garbage", "h5-same", "h5-othersize", "h5-othersize", "h5-missing"]
 TRACK_FILES = ["none", "inside", "edge", "outside", "garbage", "empty", "many"]
 
 
@@ -309,6 +309,22 @@ def api_oracle(rec, A):
             t = l.split()
             if t and t[0] == "ints" and int(t[2]) != rec["n"]:
                 return "sum of tables of lengths %d and %d has %s entries" % (rec["n"], rec["n2"], t[2])
+    if rec["kind"] == "file":
+        # independent reading of the property: only complete (number, value, value) records before the first
+        # rejected word count; a repeated record number is skipped
+        import re
+        isnum = lambda w: re.fullmatch(r"[-+]?[0-9]+(\.[0-9]+)?", w) is not None
+        ws = [w for w in rec["words"] if w != "~"]
+        want, old, i = 0, None, 0
+        while i + 2 < len(ws) and ws[i].isdigit() and isnum(ws[i + 1]) and isnum(ws[i + 2]):
+            if ws[i] != old:
+                want += 1
+            old = ws[i]
+            i += 3
+        for l in lines:
+            t = l.split()
+            if t and t[0] == "ints" and int(t[2]) != want:
+                return "impedance file with %d complete records gives a table of %s samples" % (want, t[2])
     if rec["kind"] == "pow2":
         for l in lines:
             t = l.split()
@@ -454,7 +470,7 @@ def run(chk):
     h5 = lib.build_h5dump()
     quick = chk.tier == "quick"
     recs, optexts, mism, drift, san, afails = explore_api(chk, harness, 48 if quick else 900, "main")
-    jobs, bfails, stats, compared = explore_binary(chk, exe, h5, 40 if quick else 900, "main", workers=8 if quick else 14)
+    jobs, bfails, stats, compared = explore_binary(chk, exe, h5, 64 if quick else 900, "main", workers=8 if quick else 14)
     chk.cov["evaluations"] = len(recs) + len(jobs)
     chk.cov["distinct_nontrivial"] = len({r["optext"] for r in recs}) + len({repr(j[1]) for j in jobs})
     chk.cov["rule"] = ("(a) API harness under ASan+UBSan+float-cast-overflow+_GLIBCXX_ASSERTIONS: kick maps with displacements "
